@@ -1,24 +1,343 @@
 mod build;
 mod gram;
 mod hook;
+mod norm;
+mod pool;
 mod prng;
+mod sources;
+mod srcsim;
 mod tok;
 mod val;
 mod thrsim {
     pub fn sched_point() {}
 }
 
-use chumsky::prelude::*;
+use pool::{Engine, Violation};
+use serde_json::{json, Value};
+use std::path::{Path, PathBuf};
+use std::process::{Command, Stdio};
+use std::time::{Duration, Instant};
+
+fn engine_by_name(n: &str) -> Box<dyn Engine> {
+    match n {
+        "srcsim" => Box::new(srcsim::SrcSim),
+        _ => {
+            eprintln!("unknown engine {}", n);
+            std::process::exit(2)
+        }
+    }
+}
+
+struct Args {
+    v: Vec<String>,
+}
+impl Args {
+    fn get(&self, k: &str) -> Option<&str> {
+        self.v.iter().position(|a| a == k).and_then(|i| self.v.get(i + 1)).map(|s| s.as_str())
+    }
+    fn num(&self, k: &str) -> Option<u64> {
+        self.get(k).map(|s| s.parse().unwrap_or_else(|_| harness_error(&format!("bad number for {}", k))))
+    }
+}
+
+fn harness_error(msg: &str) -> ! {
+    eprintln!("HARNESS-ERROR: {}", msg);
+    std::process::exit(2)
+}
+
+fn workers_default() -> usize {
+    std::env::var("VERIF_WORKERS").ok().and_then(|s| s.parse().ok()).unwrap_or_else(|| std::thread::available_parallelism().map(|n| n.get()).unwrap_or(8))
+}
 
 fn main() {
-    let mut rng = prng::Rng::new(1);
-    for i in 0..20 {
-        let cfg = gram::GenCfg::swarm(&mut rng, true);
-        let g = gram::generate(&mut rng, &cfg);
-        let inp = gram::gen_input(&g, &mut rng, cfg.nsym, 40);
-        let toks: Vec<u8> = inp.iter().map(|s| b'a' + s).collect();
-        let p = build::build::<&[u8]>(&g);
-        let r = p.parse(&toks[..]);
-        println!("{} {} {} -> out={} errs={}", i, gram::sexpr(&g), gram::show_input(&inp), r.has_output(), r.errors().len());
+    let v: Vec<String> = std::env::args().collect();
+    if v.len() < 2 {
+        harness_error("usage: sim run|child|replay|minimise ...");
+    }
+    let args = Args { v: v.clone() };
+    match v[1].as_str() {
+        "run" => parent(&args),
+        "child" => child(&args),
+        "replay" => {
+            hook::install_panic_hook();
+            let code = replay_file(Path::new(&v[2]), true);
+            std::process::exit(code)
+        }
+        "minimise" => {
+            hook::install_panic_hook();
+            minimise_file(Path::new(&v[2]), Path::new(&v[3]));
+        }
+        _ => harness_error("unknown subcommand"),
+    }
+}
+
+// ------------------------------------------------------------------------------------------------
+
+fn child(args: &Args) {
+    let engine = engine_by_name(&args.v[2]);
+    let tier = args.get("--tier").unwrap_or("quick").to_string();
+    let seed = args.num("--seed").unwrap_or(1);
+    let first = args.num("--first").unwrap_or(0);
+    let count = args.num("--cases").unwrap_or_else(|| engine.cases(&tier));
+    let workers = args.num("--workers").map(|n| n as usize).unwrap_or_else(workers_default);
+    let out = PathBuf::from(args.get("--out").unwrap_or_else(|| harness_error("child needs --out")));
+    let journal = args.get("--journal").map(PathBuf::from);
+    hook::install_panic_hook();
+    let res = pool::run_threads(&*engine, seed, &tier, first, count, workers, journal.as_deref(), true);
+    let j = pool::acc_to_json(&res);
+    std::fs::write(&out, serde_json::to_vec(&j).unwrap()).unwrap_or_else(|e| harness_error(&format!("write {}: {}", out.display(), e)));
+}
+
+fn run_with_timeout(cmd: &mut Command, secs: u64) -> (Option<std::process::ExitStatus>, bool) {
+    let mut ch = cmd.spawn().unwrap_or_else(|e| harness_error(&format!("spawn: {}", e)));
+    let t0 = Instant::now();
+    loop {
+        match ch.try_wait() {
+            Ok(Some(st)) => return (Some(st), false),
+            Ok(None) => {
+                if t0.elapsed() > Duration::from_secs(secs) {
+                    let _ = ch.kill();
+                    let _ = ch.wait();
+                    return (None, true);
+                }
+                std::thread::sleep(Duration::from_millis(20));
+            }
+            Err(e) => harness_error(&format!("wait: {}", e)),
+        }
+    }
+}
+
+fn parent(args: &Args) {
+    let t0 = Instant::now();
+    let ename = args.v[2].clone();
+    let engine = engine_by_name(&ename);
+    let tier = args.get("--tier").map(|s| s.to_string()).or_else(|| std::env::var("VERIF_TIER").ok()).unwrap_or_else(|| "quick".into());
+    let seed = args.num("--seed").or_else(|| std::env::var("VERIF_SEED").ok().and_then(|s| s.parse().ok())).unwrap_or(1);
+    let count = args.num("--cases").unwrap_or_else(|| engine.cases(&tier));
+    let first = args.num("--first").unwrap_or(0);
+    let workers = args.num("--workers").map(|n| n as usize).unwrap_or_else(workers_default);
+    let evidence_path = args.get("--evidence").map(PathBuf::from);
+    let timeout = args.num("--timeout").unwrap_or(if tier == "thorough" { 7200 } else { 900 });
+    println!("VERIF_SEED={} engine={} property={} tier={} cases={}..{} workers={}", seed, ename, engine.property(), tier, first, first + count, workers);
+    let scratch = pool::scratch_dir();
+    let out = scratch.join("child.json");
+    let journal = scratch.join("journal.bin");
+    let exe = std::env::current_exe().unwrap();
+    let mut cmd = Command::new(&exe);
+    cmd.args(["child", &ename, "--tier", &tier, "--seed", &seed.to_string(), "--first", &first.to_string(), "--cases", &count.to_string(), "--workers", &workers.to_string()])
+        .arg("--out")
+        .arg(&out)
+        .arg("--journal")
+        .arg(&journal)
+        .stdin(Stdio::null());
+    let (st, timed_out) = run_with_timeout(&mut cmd, timeout);
+    let mut violations: Vec<Violation> = Vec::new();
+    let mut child_json: Value = json!({});
+    let clean = st.map(|s| s.success()).unwrap_or(false);
+    if clean {
+        child_json = serde_json::from_slice(&std::fs::read(&out).unwrap_or_else(|e| harness_error(&format!("child output: {}", e)))).unwrap_or_else(|e| harness_error(&format!("child json: {}", e)));
+        if let Some(nd) = child_json["nondeterminism"].as_array() {
+            if !nd.is_empty() {
+                harness_error(&format!("in-run determinism guard: cases {:?} gave different digests on re-execution", nd));
+            }
+        }
+        violations = serde_json::from_value(child_json["violations"].clone()).unwrap_or_default();
+    } else {
+        // crash or hang: attribute through the journal, re-run each in-flight case alone
+        let inflight = pool::read_journal(&journal, workers);
+        println!("child ended abnormally (timed_out={} status={:?}); in-flight cases: {:?}", timed_out, st, inflight);
+        for idx in inflight {
+            let o2 = scratch.join(format!("single-{}.json", idx));
+            let mut c = Command::new(&exe);
+            c.args(["child", &ename, "--tier", &tier, "--seed", &seed.to_string(), "--first", &idx.to_string(), "--cases", "1", "--workers", "1"]).arg("--out").arg(&o2).stdin(Stdio::null());
+            let (st2, to2) = run_with_timeout(&mut c, 120);
+            let ok2 = st2.map(|s| s.success()).unwrap_or(false);
+            if !ok2 {
+                violations.push(Violation {
+                    property: engine.property().into(),
+                    engine: ename.clone(),
+                    seed,
+                    case: idx,
+                    class: if to2 { "hang".into() } else { "crash".into() },
+                    summary: format!("worker process died running case {} alone (timed_out={}, status={:?})", idx, to2, st2),
+                    replay: json!({"engine": ename, "property": engine.property(), "seed": seed, "case": idx, "tier": tier, "regenerate": true, "class": if to2 {"hang"} else {"crash"}}),
+                });
+            } else if let Ok(b) = std::fs::read(&o2) {
+                if let Ok(j) = serde_json::from_slice::<Value>(&b) {
+                    let vs: Vec<Violation> = serde_json::from_value(j["violations"].clone()).unwrap_or_default();
+                    violations.extend(vs);
+                }
+            }
+        }
+        if violations.is_empty() {
+            harness_error("child process died but no in-flight case reproduces the death alone");
+        }
+    }
+
+    // report: minimise, write replay files, confirm in a fresh process
+    let replays = PathBuf::from(std::env::var("VERIF_REPLAYS").unwrap_or_else(|_| "/verif/replays".into()));
+    let mut confirmed = 0;
+    let mut lines = Vec::new();
+    for v in violations.iter().take(3) {
+        std::fs::create_dir_all(&replays).ok();
+        let raw = replays.join(format!("{}-{}-{}-{}.raw.json", v.property, v.engine, v.seed, v.case));
+        std::fs::write(&raw, serde_json::to_vec_pretty(&v.replay).unwrap()).unwrap();
+        let min = replays.join(format!("{}-{}-{}-{}.json", v.property, v.engine, v.seed, v.case));
+        let mut mc = Command::new(&exe);
+        mc.arg("minimise").arg(&raw).arg(&min).stdin(Stdio::null()).stdout(Stdio::null());
+        let (ms, _) = run_with_timeout(&mut mc, 300);
+        if !ms.map(|s| s.success()).unwrap_or(false) || !min.exists() {
+            std::fs::copy(&raw, &min).ok();
+        }
+        // replay in a fresh process: must fail the same way
+        let mut rc = Command::new(&exe);
+        rc.arg("replay").arg(&min).stdin(Stdio::null()).stdout(Stdio::null());
+        let (rs, rto) = run_with_timeout(&mut rc, 300);
+        let reproduced = rto || rs.map(|s| s.code() != Some(0)).unwrap_or(true);
+        let reproduced = reproduced && rs.map(|s| s.code() != Some(2)).unwrap_or(true);
+        if reproduced {
+            confirmed += 1;
+            println!("violation: {}", v.summary);
+            lines.push(format!("VIOLATION property={} replay={}", v.property, min.display()));
+        } else {
+            println!("HARNESS-ERROR: violation for case {} did not reproduce from {} (withdrawn)", v.case, min.display());
+        }
+    }
+    if let Some(p) = &evidence_path {
+        let ev = evidence(&*engine, &tier, seed, &child_json, t0.elapsed().as_secs_f64(), confirmed, count);
+        if let Some(d) = p.parent() {
+            std::fs::create_dir_all(d).ok();
+        }
+        std::fs::write(p, serde_json::to_vec_pretty(&ev).unwrap()).unwrap_or_else(|e| harness_error(&format!("write evidence: {}", e)));
+    }
+    std::fs::remove_dir_all(&scratch).ok();
+    for l in &lines {
+        println!("{}", l);
+    }
+    if !lines.is_empty() {
+        std::process::exit(1);
+    }
+    if !violations.is_empty() {
+        std::process::exit(2);
+    }
+    println!("OK property={} engine={} cases={} wall_s={:.1}", engine.property(), ename, child_json["cases_run"], t0.elapsed().as_secs_f64());
+}
+
+fn evidence(engine: &dyn Engine, tier: &str, seed: u64, cj: &Value, wall: f64, violations: usize, planned: u64) -> Value {
+    let cases = cj["cases_run"].as_u64().unwrap_or(0);
+    let counters = &cj["counters"];
+    let evals = counters["evaluations.replica_runs"].as_u64().unwrap_or(cases).max(1);
+    let child_wall = cj["wall_s"].as_f64().unwrap_or(wall).max(1e-9);
+    json!({
+        "property_id": engine.property(),
+        "tier": tier,
+        "seed": seed,
+        "level": "exploration",
+        "wall_s": wall,
+        "violations": violations,
+        "coverage": {
+            "evaluations": evals,
+            "distinct_nontrivial": cj["distinct"]["nontrivial_cases"].as_u64().unwrap_or(0),
+            "rule": rule_text(engine.name()),
+            "samples": cj["samples"]["samples"],
+            "exhaustive": false,
+            "engine": engine.name(),
+            "cases_planned": planned,
+            "cases_run": cases,
+            "distinct_cases_by_outcome_digest": cj["distinct"]["cases"],
+            "simulated_runs_per_hour": (evals as f64 / child_wall * 3600.0) as u64,
+            "cases_per_hour": (cases as f64 / child_wall * 3600.0) as u64,
+            "simulated_time": "chumsky has no clock, timer or deadline; logical time = seam events (token ticks + user callbacks + source calls), reported under counters.sim_steps.*",
+            "counters": counters,
+            "maxima": cj["maxima"],
+            "real_vs_stub": {
+                "real": "all of chumsky, unmodified, compiled from /repo's working tree (features std, stacker, memoization, extension, pratt, either, bytes, regex, unstable)",
+                "simulated": "Read+Seek device (SimReader), pull iterators (SimIter, SimCloneIter); every decision from the case PRNG / the recorded trace",
+                "stubbed_inside_chumsky": "nothing"
+            }
+        },
+        "assumptions": assumptions(engine.name()),
+    })
+}
+
+fn rule_text(engine: &str) -> String {
+    match engine {
+        "srcsim" => "case = seeded (grammar AST, 1-3 token strings); each string is parsed (parse and check) through every applicable input kind fed by a simulated source whose per-call behaviour (chunk sizes, EINTR, cut points, size_hint) is drawn from the case PRNG; evaluations = replica runs compared with the &[T] reference. distinct_nontrivial = distinct (case digest, kind, policy) where the reference consumed >= 2 tokens AND the replica's source actually saw a backward reposition / short read / EINTR (reader) or served a rewind from its cache / by cloning (iterators)".into(),
+        _ => String::new(),
+    }
+}
+
+fn assumptions(engine: &str) -> Vec<String> {
+    match engine {
+        "srcsim" => vec![
+            "the &[T] input is the single-copy reference: representations are compared with it, not with an independent PEG semantics".into(),
+            "only contract-legal source behaviour (any chunking, EINTR, EOF, loose size_hint) carries the equality oracle; hard I/O errors are characterised and can never raise a violation".into(),
+            "error descriptions (found/expected/messages) are not part of C10 and are only counted when they differ".into(),
+            "empty spans of mapped (token,span) inputs are compared among mapped kinds only".into(),
+            "seeded sampling: a clean run is evidence, not proof".into(),
+        ],
+        _ => vec![],
+    }
+}
+
+// ------------------------------------------------------------------------------------------------
+
+fn replay_file(p: &Path, verbose: bool) -> i32 {
+    let v: Value = serde_json::from_slice(&std::fs::read(p).unwrap_or_else(|e| harness_error(&format!("read {}: {}", p.display(), e)))).unwrap_or_else(|e| harness_error(&format!("parse replay: {}", e)));
+    let engine = v["engine"].as_str().unwrap_or("");
+    if v["regenerate"].as_bool() == Some(true) {
+        // crash / hang cases: regenerate from (seed, case) — the run itself is the reproduction
+        let e = engine_by_name(engine);
+        let mut acc = pool::Acc::default();
+        let tier = v["tier"].as_str().unwrap_or("quick");
+        e.run_case(v["seed"].as_u64().unwrap(), v["case"].as_u64().unwrap(), tier, &mut acc);
+        if let Some(vi) = acc.violations.first() {
+            if verbose {
+                println!("reproduced: {}", vi.summary);
+            }
+            return 1;
+        }
+        if verbose {
+            println!("not reproduced");
+        }
+        return 0;
+    }
+    match engine {
+        "srcsim" => {
+            let rp: srcsim::Replay = serde_json::from_value(v).unwrap_or_else(|e| harness_error(&format!("bad srcsim replay: {}", e)));
+            match srcsim::replay(&rp) {
+                Some((class, exp, obs)) => {
+                    if verbose {
+                        println!("reproduced property=C10 class={}\n grammar={}\n input={:?}\n expected={}\n observed={}", class, gram::sexpr(&rp.grammar), gram::show_input(&rp.syms), exp.brief(), obs.brief());
+                    }
+                    1
+                }
+                None => {
+                    if verbose {
+                        println!("not reproduced");
+                    }
+                    0
+                }
+            }
+        }
+        _ => harness_error("replay: unknown engine"),
+    }
+}
+
+fn minimise_file(src: &Path, dst: &Path) {
+    let v: Value = serde_json::from_slice(&std::fs::read(src).unwrap()).unwrap();
+    if v["regenerate"].as_bool() == Some(true) {
+        std::fs::copy(src, dst).unwrap();
+        return;
+    }
+    match v["engine"].as_str().unwrap_or("") {
+        "srcsim" => {
+            let rp: srcsim::Replay = serde_json::from_value(v).unwrap();
+            let m = srcsim::minimise(&rp);
+            std::fs::write(dst, serde_json::to_vec_pretty(&m).unwrap()).unwrap();
+        }
+        _ => {
+            std::fs::copy(src, dst).unwrap();
+        }
     }
 }
